@@ -253,6 +253,27 @@ def rec_any(o):
     return rec_result(o)
 
 
+def typerec(o):
+    """container type of every descriptor value and dtype of the main array: what "the in-memory object" is made of beyond
+    its values (a boolean mask `d == x` works on an ndarray and not on the list with the same entries)"""
+    def tn(v):
+        if isinstance(v, np.ndarray):
+            return f'ndarray:{v.dtype.str}:{v.shape}'
+        if isinstance(v, (list, tuple)):
+            return f'{type(v).__name__}:{len(v)}'
+        return type(v).__name__
+    out = {}
+    for name in ('descriptors', 'rdm_descriptors', 'pattern_descriptors', 'obs_descriptors', 'channel_descriptors', 'time_descriptors'):
+        d = getattr(o, name, None)
+        if isinstance(d, dict):
+            for k, v in d.items():
+                out[f'{name}[{k!r}]'] = tn(v)
+    for name in ('dissimilarities', 'measurements', 'evaluations'):
+        if hasattr(o, name):
+            out[name] = tn(getattr(o, name))
+    return out
+
+
 def diff_rec(a, b):
     """list of (field, message) differences between two records"""
     out = []
@@ -728,6 +749,7 @@ def _do_save(ctx, pool, fs, files, objs, kind, o):
     fired_before = sum(ctx.faults.values())
     fs.tick('save', target=fs.rel(dest) if isinstance(dest, str) else '<%s>' % target, ft=ft, overwrite=ow, fault=o['fault'], obj=slot.sid)
     twin_before = rec_any(obj)
+    types_before = typerec(obj)
     raised = None
     try:
         obj.save(dest_arg, file_type=ft, overwrite=ow)
@@ -744,6 +766,13 @@ def _do_save(ctx, pool, fs, files, objs, kind, o):
     d2 = diff_rec(twin_before, after)
     if d2:
         ctx.violation('fs_model.save_mutates', f'save:{kind}:{ft}:mutates-object', f'save({ft}) changed the in-memory object: {d2[0][1]}')
+    types_after = typerec(obj)
+    if types_after != types_before:
+        ch = sorted(k for k in set(types_before) | set(types_after) if types_before.get(k) != types_after.get(k))
+        ctx.violation('fs_model.save_mutates', f'save:{kind}:{ft}:mutates-object:container',
+                      f'save({ft}) changed the in-memory object: {ch[0]} was {types_before.get(ch[0])}, is {types_after.get(ch[0])}')
+    else:
+        ctx.probe('save_kept_containers')
     pool.sweep('save', args=[slot.sid])
     existing_path = target == 'existing'
     sig = (kind, slot.op, target + ('-pathlib' if as_pathobj else ''), ft, ow, o['fault'][0] if o['fault'] else None)
